@@ -26,15 +26,15 @@ import (
 
 type C08Scenario struct {
 	Direct    *C08Direct `json:"direct,omitempty"` // connection-level scenario (the other fields are unused then)
-	Seed      uint64   `json:"seed"`
-	NApp      int      `json:"n_app"`
-	AppOps    int      `json:"app_ops"`
-	Big       bool     `json:"big"` // string values of several frames
-	OtherOps  int      `json:"other_ops"` // PUTs by a second controller
-	XReqs     int      `json:"x_reqs"`
-	KeepAlive int      `json:"keep_alive"` // number of keep-alive periods to let pass
-	Bridge    int      `json:"bridge"`     // further accessories behind the bridge (multi-write GET /accessories responses)
-	Sched     []uint16 `json:"sched"`
+	Seed      uint64     `json:"seed"`
+	NApp      int        `json:"n_app"`
+	AppOps    int        `json:"app_ops"`
+	Big       bool       `json:"big"`       // string values of several frames
+	OtherOps  int        `json:"other_ops"` // PUTs by a second controller
+	XReqs     int        `json:"x_reqs"`
+	KeepAlive int        `json:"keep_alive"` // number of keep-alive periods to let pass
+	Bridge    int        `json:"bridge"`     // further accessories behind the bridge (multi-write GET /accessories responses)
+	Sched     []uint16   `json:"sched"`
 }
 
 // C08Direct drives one real hap.Connection with several writer goroutines calling the
